@@ -1,7 +1,7 @@
 (* C10 — Locked funds are fully backed and released only to the entitled party, on time.
    Only statements; each is closed by a lemma proved in theories/. *)
 From ZV Require Import Prelude GoSem Abi VmReceive VmReceiveProofs Emb EmbProofs Locks LocksProofs LocksBacked.
-From ZV Require Import Liquidity LiquidityProofs Bridge BridgeProofs.
+From ZV Require Import Liquidity LiquidityProofs Bridge BridgeProofs LockTermsProofs.
 From ZV.gen Require Import Consts Pure PureRelease.
 From ZV Require Import ReleaseSource.
 Open Scope Z_scope.
@@ -409,3 +409,68 @@ Proof. exact consume_qsr_success. Qed.
 Theorem C10_source_consume_qsr_refusal : forall req q g d sv e q' ed es,
   checkAndConsumeQsr req q g d sv = Ok (e, q', ed, es) -> e <> 0 -> q < req /\ q' = q /\ ed = None /\ es = None.
 Proof. exact consume_qsr_refusal. Qed.
+
+(* ---- the LOCKING calls: an accepted lock is one the rules allow, for EVERY argument (the period is an ABI int64: negative,
+   zero, huge values included; now + period is computed with wrap-around in the model as in Go), and the entry records the
+   call.  Together with the release guards: nothing is paid out before the contract's minimum lock, and an htlc opens only
+   on a preimage under a supported hash function. *)
+Theorem C10_stake_period_rule : forall e s t, stake_validate e s = VOk t ->
+  c_StakeTimeMin e <= t <= c_StakeTimeMax e /\ c_StakeTimeUnit e <> 0 /\ Z.rem t (c_StakeTimeUnit e) = 0 /\
+  c_StakeMinAmount e <= s_amount s /\ s_zts s = ZtsZnn.
+Proof. exact stake_period_rule. Qed.
+Theorem C10_stake_guard : forall e (a a' : cacct sstore) s ds,
+  stake_receive e a s = MOk a' ds ->
+  exists t ent, stake_validate e s = VOk t /\ ds = [] /\ a_bal a' = a_bal a /\
+    tget (a_store a') (s_from s ++ s_hash s) = Some ent /\
+    k_amount ent = u256 (s_amount s) /\ k_start ent = e_now e /\ k_revoke ent = 0 /\ k_exp ent = wrapS 64 (e_now e + t).
+Proof. exact stake_guard. Qed.
+Theorem C10_stake_minimum_lock : forall e (a a' : cacct sstore) s ds,
+  stake_receive e a s = MOk a' ds -> - two63 <= e_now e -> e_now e + c_StakeTimeMax e < two63 -> 0 <= c_StakeTimeMin e ->
+  exists ent, tget (a_store a') (s_from s ++ s_hash s) = Some ent /\ k_start ent = e_now e /\
+    k_start ent + c_StakeTimeMin e <= k_exp ent <= k_start ent + c_StakeTimeMax e.
+Proof. exact stake_minimum_lock. Qed.
+Theorem C10_stake_never_released_before_minimum_lock : forall e e' (a a' b b' : cacct sstore) s s2 ds ds2 id ent,
+  stake_receive e a s = MOk a' ds -> - two63 <= e_now e -> e_now e + c_StakeTimeMax e < two63 -> 0 <= c_StakeTimeMin e ->
+  tget (a_store a') (s_from s ++ s_hash s) = Some ent ->
+  cancel_stake_validate s2 = VOk id -> tget (a_store b) (s_from s2 ++ id) = Some ent ->
+  cancel_stake_receive e' b s2 = MOk b' ds2 ->
+  e_now e + c_StakeTimeMin e <= e_now e'.
+Proof. exact stake_never_released_before_minimum_lock. Qed.
+Theorem C10_liquidity_period_rule : forall e s t, liquidity_stake_validate e s = VOk t ->
+  c_StakeTimeMin e <= t <= c_StakeTimeMax e /\ c_StakeTimeUnit e <> 0 /\ Z.rem t (c_StakeTimeUnit e) = 0.
+Proof. exact liquidity_period_rule. Qed.
+Theorem C10_liquidity_stake_minimum_lock : forall zstr e (a a' : cacct qstore) s ds,
+  liquidity_stake_receive zstr e a s = MOk a' ds -> - two63 <= e_now e -> e_now e + c_StakeTimeMax e < two63 -> 0 <= c_StakeTimeMin e ->
+  exists ent, tget (lq_entries (a_store a')) (s_from s ++ s_hash s) = Some ent /\ ls_start ent = e_now e /\
+    ls_start ent + c_StakeTimeMin e <= ls_exp ent <= ls_start ent + c_StakeTimeMax e.
+Proof. exact liquidity_stake_minimum_lock. Qed.
+(* entry untouched between stake and cancel - in particular not unlocked by the administrator (C10_unlock_liquidity_guard) *)
+Theorem C10_liquidity_stake_never_released_before_minimum_lock : forall zstr e e' (a a' b b' : cacct qstore) s s2 ds ds2 id ent,
+  liquidity_stake_receive zstr e a s = MOk a' ds -> - two63 <= e_now e -> e_now e + c_StakeTimeMax e < two63 -> 0 <= c_StakeTimeMin e ->
+  tget (lq_entries (a_store a')) (s_from s ++ s_hash s) = Some ent ->
+  cancel_liquidity_validate s2 = VOk id -> tget (lq_entries (a_store b)) (s_from s2 ++ id) = Some ent ->
+  cancel_liquidity_receive e' b s2 = MOk b' ds2 ->
+  e_now e + c_StakeTimeMin e <= e_now e'.
+Proof. exact liquidity_stake_never_released_before_minimum_lock. Qed.
+Theorem C10_htlc_create_guard : forall e (a a' : cacct hstore) s ds,
+  create_receive e a s = MOk a' ds ->
+  exists hl exp ty kmax lock ent, create_validate s = VOk (hl, exp, ty, kmax, lock) /\
+    (ty = HashTypeSHA3 \/ ty = HashTypeSHA256) /\ len lock = 32 /\ e_now e < exp /\ s_amount s <> 0 /\
+    ds = [] /\ a_bal a' = a_bal a /\
+    tget (h_entries (a_store a')) (s_hash s) = Some ent /\
+    h_timelocked ent = s_from s /\ h_hashlocked ent = hl /\ h_zts ent = s_zts s /\ h_amount ent = u256 (s_amount s) /\
+    h_exp ent = exp /\ h_type ent = ty /\ h_keymax ent = kmax /\ h_lock ent = lock.
+Proof. exact create_guard. Qed.
+Theorem C10_created_htlc_needs_supported_preimage : forall (H : Z -> bytes -> bytes) e e' (a a' b b' : cacct hstore) s s2 ds ds2 id pre ent,
+  create_receive e a s = MOk a' ds -> tget (h_entries (a_store a')) (s_hash s) = Some ent ->
+  unlock_validate s2 = VOk (id, pre) -> tget (h_entries (a_store b)) id = Some ent ->
+  unlock_receive H e' b s2 = MOk b' ds2 ->
+  (h_type ent = HashTypeSHA3 \/ h_type ent = HashTypeSHA256) /\ len (h_lock ent) = 32 /\ H (h_type ent) pre = h_lock ent /\
+  e_now e' < h_exp ent /\ ds2 = [{| d_to := h_hashlocked ent; d_amount := h_amount ent; d_zts := h_zts ent; d_data := [] |}].
+Proof. exact created_htlc_needs_supported_preimage. Qed.
+(* the side conditions hold for the frontier times and constants of a chain: e.g. the values of the shortened test regime *)
+Example C10_minimum_lock_conditions_example :
+  let e := {| e_now := 1000000000; e_height := 100; c_FuseMinAmount := 1000000000; c_CostPerFusionUnit := 1000000000; c_FuseExpiration := 6;
+              c_StakeMinAmount := 100000000; c_StakeTimeMin := 30; c_StakeTimeMax := 360; c_StakeTimeUnit := 30; c_TokenIssueAmount := 100000000 |} in
+  - two63 <= e_now e /\ e_now e + c_StakeTimeMax e < two63 /\ 0 <= c_StakeTimeMin e.
+Proof. cbv. repeat split; discriminate. Qed.
